@@ -7,7 +7,7 @@ import StathamModel.Lemmas.EvalLeaf
 import StathamModel.Lemmas.EvalTree
 import StathamModel.Tie
 namespace Statham.C18
-open Statham
+open Statham Statham.PyEval
 
 /-- a keyword is printed exactly when it differs from the constructor default: it is absent from the
     keyword arguments iff `kwExpr` is `none` for it -/
